@@ -2,7 +2,7 @@
 import json, os, re, shutil, sys
 from checklib import *  # noqa
 
-STATE_PREDS = {"Conservation", "NoNegative", "WellFormed", "SysClean", "CounterWithRole"}
+STATE_PREDS = {"TransferConservation", "Conservation", "NoNegative", "WellFormed", "SysClean", "CounterWithRole"}
 
 MC_ALL_DIRECT = ["P04_FlagTakesEffect", "P01_DeliveryNominal", "P16_Price", "P10_RoundTrip", "P10_Accepted", "P11_ShapeVerdict", "P01_FailKeeps", "P02_Others", "P02_NoOverdraft", "P03_Authority", "P04_Immobile", "P04_NoCreditWhilePaused", "P04_FlagOnly",
                  "P05_Protected", "P05_KVExact", "P05_Frame", "P06_NoGasCreated", "P07_ReturnedNonce", "P07_CtrOnlyByCreate", "P08_Create",
@@ -24,7 +24,7 @@ def M(fns, msgs=1, supply=2, ctr=1, accsample=1, **kw):
 
 
 LEDGER = {
-    "C01": dict(profile="transfer", preds=["P01_Exact", "P01_DeliveryAccepted", "P01_DeliveryNominal", "P01_RefundRestores", "P01_FailKeeps", "Conservation", "NoNegative"],
+    "C01": dict(profile="transfer", preds=["P01_Exact", "P01_DeliveryAccepted", "P01_DeliveryNominal", "P01_RefundRestores", "P01_FailKeeps", "TransferConservation"],
                 mc=([M("ESDTNFTTransfer,create,flags", hs=("u0a", "u1a"), ptoks=("4e",), pshards=(0, 1), freeze=()),
                      M("ESDTTransfer,issue,MultiESDTNFTTransfer,flags", hs=("u0a", "u1a"), pshards=(1,)),
                      M("ESDTTransfer,issue,ESDTNFTTransfer,create")],
